@@ -19,6 +19,10 @@ type fault struct {
 	// demanded, not the exact operand of a merge chain
 	parentRaised bool
 	wantRel      string // the error is expected to name this setting below the fault position
+	// extras are helper settings added at the top level of the configuration
+	// (only when the target is a struct, which does not read them): they are
+	// reached through the reference at the fault position only
+	extras map[string]*model.Node
 	noSource     bool   // no value exists that could carry a source: not demanded
 }
 
@@ -52,13 +56,30 @@ func hasTag(tag, name string) bool {
 }
 
 // faultsAt lists the single faults applicable at a position.
-func faultsAt(p *position, pick func(n int) int) []fault {
+// faultEnv is what the fault kinds need to know about the case.
+type faultEnv struct {
+	pick      func(n int) int
+	topStruct bool                // the Unpack target is a struct: unknown top-level keys are not read
+	primFor   func(p []seg) string // dotted path of a primitive setting elsewhere in the valid tree ("" if none)
+}
+
+func faultsAt(p *position, env faultEnv) []fault {
+	pick := env.pick
 	var out []fault
 	add := func(f fault) { out = append(out, f) }
 	self := "${" + pathStr(p.path) + "}"
 	refs := func() {
 		add(fault{kind: "unresolvable-reference", val: model.P(refMissing), getters: allGetters, parentRaised: true})
 		add(fault{kind: "cyclic-reference", val: model.P(self), getters: allGetters, parentRaised: true})
+		// references failing with a typed error that carries no path of its
+		// own: a cycle between two other settings, a path through a primitive
+		if env.topStruct {
+			add(fault{kind: "cyclic-reference-pair", val: model.P("${zz_x}"), getters: allGetters, parentRaised: true,
+				extras: map[string]*model.Node{"zz_x": model.P("${zz_y}"), "zz_y": model.P("${zz_x}")}})
+		}
+		if q := env.primFor(p.path); q != "" {
+			add(fault{kind: "reference-through-primitive", val: model.P("${" + q + []string{".x.y", ".x.y.z", ".0.x.y", ".k.1"}[pick(4)] + "}"), getters: allGetters, parentRaised: true})
+		}
 	}
 	s := p.sp
 	if s == nil || s.kind == kIface {
